@@ -29,7 +29,10 @@ import (
 // What the detector reports is therefore a race of the library (or of the library with a
 // caller that owns what it was handed), not of the harness.
 
-const rMaxTasks = 4096
+// rMaxTasks bounds the tasks of one run, rMaxLive those alive at the same time: every parked
+// task holds an OS thread (it sits in a raw read), and sixteen workers run side by side
+const rMaxTasks = 1 << 20
+const rMaxLive = 384
 const rTab = 4096 // slots per table of simulated primitives (open addressing)
 
 //go:norace
@@ -60,10 +63,19 @@ type rMutex struct {
 }
 
 type rTables struct {
-	mutexes [rTab]rMutex
-	onces   [rTab]rOnce
-	wgs     [rTab]rWG
+	mutexes     [rTab]rMutex
+	onces       [rTab]rOnce
+	wgs         [rTab]rWG
+	sparerMutex rMutex
+	sparerOnce  rOnce
+	sparerWG    rWG
 }
+
+// rTombstone marks a slot whose primitive went back to its neutral state (mutex free,
+// WaitGroup at zero): code that creates a fresh mutex or WaitGroup per loop iteration would
+// otherwise fill the table.
+var rTombByte byte
+var rTombstone = unsafe.Pointer(&rTombByte)
 
 type rOnce struct {
 	key    unsafe.Pointer
@@ -77,7 +89,7 @@ type rWG struct {
 }
 
 type RSched struct {
-	tasks          []*RTask // fixed capacity, never reallocated
+	tasks          []*RTask
 	n              int
 	cur            *RTask
 	YieldN         int
@@ -97,11 +109,11 @@ type RSched struct {
 	MaxYields      int
 	mainRd, mainWr int
 	tabs           *rTables // simulated primitives, allocated at first use
-	nkeys          int
 	AbortYields    int
 	Overrun        bool
 	Stalled        bool
 	GoCalls        int
+	live           int
 	pglobal        [64]int // generate mode: global yield indices at which whoever runs is preempted
 	npglobal       int
 	base           int // goroutines that existed before the run
@@ -138,7 +150,7 @@ func rawRead(fd int) {
 }
 
 func NewRSched(rng *Rand) *RSched {
-	rs := &RSched{tasks: make([]*RTask, 0, rMaxTasks), Rng: rng, MaxYields: 5_000_000, dec: make([]SchedDecision, 0, 512)}
+	rs := &RSched{tasks: make([]*RTask, 0, 64), Rng: rng, MaxYields: 5_000_000, dec: make([]SchedDecision, 0, 512)}
 	var p [2]int
 	if err := syscall.Pipe(p[:]); err != nil {
 		panic(err)
@@ -172,15 +184,24 @@ func (rs *RSched) AddTask(fn func(), order *OrderSource) *RTask {
 
 //go:norace
 func (rs *RSched) newTask(fn func(), order *OrderSource, parent int) *RTask {
-	if rs.n >= rMaxTasks {
+	if rs.n >= rMaxTasks || rs.live >= rMaxLive {
 		rs.overflow = true
 		return nil
 	}
+	rs.live++
 	var p [2]int
 	if err := syscall.Pipe(p[:]); err != nil {
 		panic(err)
 	}
 	t := &RTask{ID: rs.n, Fn: fn, Order: order, rd: p[0], wr: p[1], Done: make(chan struct{}), parent: parent}
+	if len(rs.tasks) == cap(rs.tasks) {
+		// grown by hand: append would call a runtime helper that reports to the race detector
+		bigger := make([]*RTask, len(rs.tasks), 4*cap(rs.tasks))
+		for i, x := range rs.tasks {
+			bigger[i] = x
+		}
+		rs.tasks = bigger
+	}
 	rs.tasks = append(rs.tasks, t)
 	rs.n++
 	return t
@@ -303,15 +324,23 @@ func (rs *RSched) Run(watchdog time.Duration) bool {
 		rs.UnownedSeen = true
 	}
 	if ok && !rs.Deadlock {
-		for i := 0; i < rs.nSnapshot(); i++ {
-			syscall.Close(rs.tasks[i].rd)
-			syscall.Close(rs.tasks[i].wr)
-		}
+		rs.closeTaskPipes()
 		syscall.Close(rs.mainRd)
 		syscall.Close(rs.mainWr)
 	}
 	rsched = nil
 	return ok
+}
+
+//go:norace
+func (rs *RSched) closeTaskPipes() {
+	for i := 0; i < rs.n; i++ {
+		if t := rs.tasks[i]; t.rd >= 0 {
+			syscall.Close(t.rd)
+			syscall.Close(t.wr)
+			t.rd, t.wr = -1, -1
+		}
+	}
 }
 
 //go:norace
@@ -350,6 +379,10 @@ func (rs *RSched) start(t *RTask) {
 //go:norace
 func (rs *RSched) finish(t *RTask) {
 	t.state = stDone
+	rs.live--
+	syscall.Close(t.rd) // nobody wakes a finished task
+	syscall.Close(t.wr)
+	t.rd, t.wr = -1, -1
 	next := rs.pickOther("finish", t)
 	if next == nil {
 		for i := 0; i < rs.n; i++ {
@@ -474,22 +507,35 @@ func (rs *RSched) mutexFor(p unsafe.Pointer) *rMutex {
 		rs.tabs = &rTables{}
 	}
 	i := rSlot(p)
+	free := -1
 	for n := 0; n < rTab; n++ {
-		e := &rs.tabs.mutexes[(i+n)&(rTab-1)]
+		j := (i + n) & (rTab - 1)
+		e := &rs.tabs.mutexes[j]
 		if e.key == p {
 			return e
 		}
-		if e.key == nil {
-			if rs.nkeys >= rTab/2 {
-				break
+		if e.key == rTombstone {
+			if free < 0 {
+				free = j
 			}
-			rs.nkeys++
-			e.key = p
-			return e
+			continue
+		}
+		if e.key == nil {
+			if free < 0 {
+				free = j
+			}
+			break
 		}
 	}
+	if free >= 0 {
+		e := &rs.tabs.mutexes[free]
+		*e = rMutex{key: p}
+		return e
+	}
+	// every slot holds a primitive that is in use: the run is marked and gives no verdict
 	rs.overflow = true
-	return &rs.tabs.mutexes[i]
+	rs.tabs.sparerMutex = rMutex{key: p}
+	return &rs.tabs.sparerMutex
 }
 
 //go:norace
@@ -500,6 +546,7 @@ func (rs *RSched) lock(p unsafe.Pointer, site int, shared bool) {
 	m := rs.mutexFor(p)
 	for !(m.owner == nil && (shared || m.readers == 0)) {
 		rs.block(t)
+		m = rs.mutexFor(p) // the slot may have been released and reused meanwhile
 	}
 	if shared {
 		m.readers++
@@ -520,6 +567,9 @@ func (rs *RSched) unlock(p unsafe.Pointer, site int, shared bool) {
 	} else {
 		m.owner = nil
 	}
+	if m.owner == nil && m.readers == 0 {
+		m.key = rTombstone
+	}
 	rs.wakeAllBlocked()
 	rs.yield(site, 1)
 }
@@ -532,6 +582,21 @@ func (rs *RSched) tryLock(p unsafe.Pointer, site int) bool {
 	if m.owner == nil && m.readers == 0 {
 		m.owner = t
 		return true
+	}
+	return false
+}
+
+//go:norace
+func (rs *RSched) tryRLock(p unsafe.Pointer, site int) bool {
+	t := rs.cur
+	t.SyncOps++
+	m := rs.mutexFor(p)
+	if m.owner == nil {
+		m.readers++
+		return true
+	}
+	if m.readers == 0 && m.owner == nil {
+		m.key = rTombstone
 	}
 	return false
 }
@@ -551,22 +616,35 @@ func (rs *RSched) onceFor(p unsafe.Pointer) *rOnce {
 		rs.tabs = &rTables{}
 	}
 	i := rSlot(p)
+	free := -1
 	for n := 0; n < rTab; n++ {
-		e := &rs.tabs.onces[(i+n)&(rTab-1)]
+		j := (i + n) & (rTab - 1)
+		e := &rs.tabs.onces[j]
 		if e.key == p {
 			return e
 		}
-		if e.key == nil {
-			if rs.nkeys >= rTab/2 {
-				break
+		if e.key == rTombstone {
+			if free < 0 {
+				free = j
 			}
-			rs.nkeys++
-			e.key = p
-			return e
+			continue
+		}
+		if e.key == nil {
+			if free < 0 {
+				free = j
+			}
+			break
 		}
 	}
+	if free >= 0 {
+		e := &rs.tabs.onces[free]
+		*e = rOnce{key: p}
+		return e
+	}
+	// every slot holds a primitive that is in use: the run is marked and gives no verdict
 	rs.overflow = true
-	return &rs.tabs.onces[i]
+	rs.tabs.sparerOnce = rOnce{key: p}
+	return &rs.tabs.sparerOnce
 }
 
 // onceEnter returns true if the caller is to run the function.
@@ -603,22 +681,35 @@ func (rs *RSched) wgFor(p unsafe.Pointer) *rWG {
 		rs.tabs = &rTables{}
 	}
 	i := rSlot(p)
+	free := -1
 	for n := 0; n < rTab; n++ {
-		e := &rs.tabs.wgs[(i+n)&(rTab-1)]
+		j := (i + n) & (rTab - 1)
+		e := &rs.tabs.wgs[j]
 		if e.key == p {
 			return e
 		}
-		if e.key == nil {
-			if rs.nkeys >= rTab/2 {
-				break
+		if e.key == rTombstone {
+			if free < 0 {
+				free = j
 			}
-			rs.nkeys++
-			e.key = p
-			return e
+			continue
+		}
+		if e.key == nil {
+			if free < 0 {
+				free = j
+			}
+			break
 		}
 	}
+	if free >= 0 {
+		e := &rs.tabs.wgs[free]
+		*e = rWG{key: p}
+		return e
+	}
+	// every slot holds a primitive that is in use: the run is marked and gives no verdict
 	rs.overflow = true
-	return &rs.tabs.wgs[i]
+	rs.tabs.sparerWG = rWG{key: p}
+	return &rs.tabs.sparerWG
 }
 
 //go:norace
@@ -627,6 +718,7 @@ func (rs *RSched) wgAdd(p unsafe.Pointer, site, n int) {
 	g.n += n
 	rs.cur.SyncOps++
 	if g.n <= 0 {
+		g.key = rTombstone
 		rs.wakeAllBlocked()
 	}
 	rs.yield(site, 1)
@@ -637,9 +729,11 @@ func (rs *RSched) wgWait(p unsafe.Pointer, site int) {
 	t := rs.cur
 	t.SyncOps++
 	rs.yield(site, 1)
-	g := rs.wgFor(p)
-	for g.n > 0 {
+	for rs.wgFor(p).n > 0 {
 		rs.block(t)
+	}
+	if g := rs.wgFor(p); g.n == 0 {
+		g.key = rTombstone // looked up only to find it at zero
 	}
 }
 
